@@ -651,4 +651,46 @@ theorem bruteTriples_mem_distinct (close excl : Nat → Nat → Bool) (l1 l2 l3 
 /-! non-vacuity: centre 0, outer beads 1 (list 2) and 2 (list 3), everything close, nothing excluded -/
 example : (0, 1, 2) ∈ bruteTriples (fun _ _ => true) (fun _ _ => false) [0] [1] [2] false := by decide
 
+
+/-! ## three-body search, outer beads from ONE list (one- and two-type variants): every triple (centre, {j, k}) once -/
+
+/-- positions: a listed triple of the one-list scan has its second bead at an earlier list position than its third -/
+theorem bruteTriples_same_positions (close excl : Nat → Nat → Bool) (l1 l : List Nat) (i j k : Nat)
+    (h : (i, j, k) ∈ bruteTriples close excl l1 l l true) :
+    ∃ jx kx : Nat, jx < kx ∧ l[jx]? = some j ∧ l[kx]? = some k := by
+  unfold bruteTriples at h
+  simp only [List.mem_flatMap, if_true] at h
+  obtain ⟨a, _, ⟨b, bx⟩, hb, h⟩ := h
+  split at h
+  · cases h
+  · simp only [List.mem_map, List.mem_filter] at h
+    obtain ⟨c, ⟨hc, _⟩, heq⟩ := h
+    simp only [Prod.mk.injEq] at heq
+    obtain ⟨rfl, rfl, rfl⟩ := heq
+    have hz := List.mem_zipIdx hb
+    simp at hz
+    obtain ⟨hlt, hg⟩ := hz
+    obtain ⟨n, hn, hget⟩ := List.getElem_of_mem hc
+    simp only [List.length_drop] at hn
+    refine ⟨bx, bx + 1 + n, by omega, ?_, ?_⟩
+    · rw [List.getElem?_eq_getElem hlt, hg]
+    · rw [List.getElem_drop] at hget
+      rw [List.getElem?_eq_getElem (by omega), hget]
+
+/-- **once each**: on a duplicate-free list the one-list scan never lists a triple in both orders of its outer beads -/
+theorem bruteTriples_same_once (close excl : Nat → Nat → Bool) (l1 l : List Nat) (hnd : l.Nodup) (i j k : Nat)
+    (h : (i, j, k) ∈ bruteTriples close excl l1 l l true) : (i, k, j) ∉ bruteTriples close excl l1 l l true := by
+  intro h2
+  obtain ⟨jx, kx, hlt, hj, hk⟩ := bruteTriples_same_positions close excl l1 l i j k h
+  obtain ⟨kx', jx', hlt', hk', hj'⟩ := bruteTriples_same_positions close excl l1 l i k j h2
+  have e1 : jx = jx' := (List.getElem?_inj (by
+      have := List.getElem?_eq_some_iff.mp hj; exact this.1) hnd).mp (hj.trans hj'.symm)
+  have e2 : kx = kx' := (List.getElem?_inj (by
+      have := List.getElem?_eq_some_iff.mp hk; exact this.1) hnd).mp (hk.trans hk'.symm)
+  omega
+
+/-! non-vacuity: centre 0 with outer beads 1 and 2 from one list: listed as (0, 1, 2), not as (0, 2, 1) -/
+example : (0, 1, 2) ∈ bruteTriples (fun _ _ => true) (fun _ _ => false) [0] [0, 1, 2] [0, 1, 2] true ∧
+    (0, 2, 1) ∉ bruteTriples (fun _ _ => true) (fun _ _ => false) [0] [0, 1, 2] [0, 1, 2] true := by decide
+
 end Votca.C03
